@@ -134,3 +134,21 @@ benign("c01-rename-decoders", "C01", SSD, "ll_dec", "lit_len_decoder", count=9)
 benign("c01-reorder-independent-lookups", "C01", SSD,
        "        let (ll_value, ll_num_bits) = lookup_ll_code(ll_code);\n        let (ml_value, ml_num_bits) = lookup_ml_code(ml_code);\n\n        if of_code > MAX_OFFSET_CODE {\n            return Err(DecodeSequenceError::UnsupportedOffset {\n                offset_code: of_code,\n            });\n        }\n\n        let (obits, ml_add, ll_add) = br.get_bits_triple(of_code, ml_num_bits, ll_num_bits);\n        let offset = obits as u32 + (1u32 << of_code);\n\n        if offset == 0 {\n            return Err(DecodeSequenceError::ZeroOffset);\n        }\n\n        target.push(Sequence {\n            ll: ll_value + ll_add as u32,\n            ml: ml_value + ml_add as u32,\n            of: offset,\n        });\n\n        if target.len() < section.num_sequences as usize {\n            //println!(\n            //    \"Bits left: {} ({} bytes)\",\n            //    br.bits_remaining(),\n            //    br.bits_remaining() / 8,\n            //);\n            ll_dec.update_state(br);",
        "        let (ml_value, ml_num_bits) = lookup_ml_code(ml_code);\n        let (ll_value, ll_num_bits) = lookup_ll_code(ll_code);\n\n        if of_code > MAX_OFFSET_CODE {\n            return Err(DecodeSequenceError::UnsupportedOffset {\n                offset_code: of_code,\n            });\n        }\n\n        let (obits, ml_add, ll_add) = br.get_bits_triple(of_code, ml_num_bits, ll_num_bits);\n        let offset = (1u32 << of_code) + obits as u32;\n\n        if offset == 0 {\n            return Err(DecodeSequenceError::ZeroOffset);\n        }\n\n        target.push(Sequence {\n            ll: ll_add as u32 + ll_value,\n            ml: ml_value + ml_add as u32,\n            of: offset,\n        });\n\n        if target.len() < section.num_sequences as usize {\n            //println!(\n            //    \"Bits left: {} ({} bytes)\",\n            //    br.bits_remaining(),\n            //    br.bits_remaining() / 8,\n            //);\n            ll_dec.update_state(br);")
+
+# ---- C11 -------------------------------------------------------------------------------
+STREAM = "ruzstd/src/decoding/streaming_decoder.rs"
+mutant("c11-check-after-alloc-new", "C11", "C11.dom.check-before-alloc", FD,
+       "        Self::check_window_size(window_size, max_window_size)?;\n        Ok(FrameDecoderState {\n            frame_header: frame,\n            frame_finished: false,\n            block_counter: 0,\n            decoder_scratch: DecoderScratch::new(window_size as usize),",
+       "        let decoder_scratch = DecoderScratch::new(window_size as usize);\n        Self::check_window_size(window_size, max_window_size)?;\n        Ok(FrameDecoderState {\n            frame_header: frame,\n            frame_finished: false,\n            block_counter: 0,\n            decoder_scratch,")
+mutant("c11-reset-skips-check", "C11", "C11.dom.check-before-alloc", FD,
+       "        let window_size = frame_header.window_size()?;\n        Self::check_window_size(window_size, max_window_size)?;\n\n        self.frame_header = frame_header;",
+       "        let window_size = frame_header.window_size()?;\n        if window_size > self.decoder_scratch.buffer.window_size as u64 {\n            Self::check_window_size(window_size, max_window_size)?;\n        }\n\n        self.frame_header = frame_header;")
+mutant("c11-ge-operator", "C11", "C11.cmp.operator", FD, "        if window_size > max_window_size {", "        if window_size >= max_window_size {")
+mutant("c11-setter-no-clamp", "C11", "C11.who.limit", FD, "self.max_window_size = max_window_size.min(crate::common::MAX_WINDOW_SIZE);", "self.max_window_size = max_window_size.max(crate::common::MAX_WINDOW_SIZE);")
+mutant("c11-reset-passes-default", "C11", "C11.who.limit", FD, "                s.reset(source, self.max_window_size)?;", "                s.reset(source, DEFAULT_MAX_WINDOW_SIZE.max(self.max_window_size))?;")
+mutant("c11-default-constant", "C11", "C11.who.limit", FD, "pub const DEFAULT_MAX_WINDOW_SIZE: u64 = 1024 * 1024 * 128;", "pub const DEFAULT_MAX_WINDOW_SIZE: u64 = 1024 * 1024 * 1024 * 128;")
+mutant("c11-streaming-init-first", "C11", "C11.dom.streaming", STREAM,
+       "        decoder.set_max_window_size(max_window_size);\n        decoder.init(&mut source)?;", "        decoder.init(&mut source)?;\n        decoder.set_max_window_size(max_window_size);")
+mutant("c11-extra-writer", "C11", "C11.who.limit", FD,
+       "    pub fn init(&mut self, source: impl Read) -> Result<(), FrameDecoderError> {\n        self.reset(source)", "    pub fn init(&mut self, source: impl Read) -> Result<(), FrameDecoderError> {\n        self.max_window_size = self.max_window_size.max(DEFAULT_MAX_WINDOW_SIZE);\n        self.reset(source)")
+benign("c11-flip-compare", "C11", FD, "        if window_size > max_window_size {", "        if max_window_size < window_size {")
